@@ -262,6 +262,14 @@ func runHarness(spec *HarnessSpec) (res *HarnessResult) {
 
 var dumpN int
 
+func rawAndAll(ts []*Term) *Term {
+	r := tTrue
+	for _, t := range ts {
+		r = rawAnd(r, t)
+	}
+	return r
+}
+
 // group queries: size of the initial groups of side obligations and the time
 // allowed before a group is split in halves
 var groupSize = envInt("GOSMT_GROUP", 32)
@@ -459,9 +467,7 @@ func (e *Engine) solve(res *HarnessResult) {
 		defer func() { pool <- w }()
 		t0 := time.Now()
 		if !fresh && !spec.NoLightPass {
-			// the vacuity witness is decided with EVERY real assumption (no cone
-			// of influence: the reduction itself relies on this witness)
-			v, _, ok := runIn(&w.c[0], 0, nassume, cond, false, t0, reach)
+			v, _, ok := runIn(&w.c[0], 0, nassume, cond, false, t0, false)
 			// a vacuity witness only needs the real assumptions to be satisfiable:
 			// facts follow from them once every obligation is discharged
 			if ok && (v == "unsat" || (reach && v == "sat")) {
@@ -472,9 +478,9 @@ func (e *Engine) solve(res *HarnessResult) {
 			}
 		}
 		t1 := time.Now()
-		v, model, ok := runIn(&w.c[1], 1, nassume, cond, fresh, t1, reach)
+		v, model, ok := runIn(&w.c[1], 1, nassume, cond, fresh, t1, false)
 		if !ok {
-			v, model, _ = runIn(&w.c[1], 1, nassume, cond, fresh, t1, reach) // solver died while loading: one retry
+			v, model, _ = runIn(&w.c[1], 1, nassume, cond, fresh, t1, false) // solver died while loading: one retry
 		}
 		if v == "sat" && !fresh && !reach && !spec.NoCOI {
 			// counterexample: ask again with EVERY assumption so that the model
@@ -644,6 +650,79 @@ func (e *Engine) solve(res *HarnessResult) {
 		}()
 	}
 	wg.Wait()
+	// Vacuity, second half.  The witness above was decided inside the cone of
+	// influence of the harness end.  The reduction is only sound if the
+	// assumptions OUTSIDE that cone are satisfiable too; they fall into
+	// variable-disjoint components, each of which is checked on its own (a
+	// contradictory side assumption such as vAssume(0 <= i && i < 0) is one).
+	{
+		n := len(e.assumptions)
+		seen := make([]bool, n)
+		mark := func(seed bitset) []int {
+			var comp []int
+			cur := append(bitset{}, seed...)
+			for changed := true; changed; {
+				changed = false
+				for k := 0; k < n; k++ {
+					if seen[k] || e.isFact[k] {
+						continue
+					}
+					if sk := assumeSupp[k]; len(sk) != 0 && sk.intersects(cur) {
+						seen[k] = true
+						comp = append(comp, k)
+						cur = cur.or(sk)
+						changed = true
+					}
+				}
+			}
+			return comp
+		}
+		for _, ob := range e.obligations {
+			if ob.Kind == "reach" {
+				mark(suppOf(ob.Cond))
+			}
+		}
+		bad := ""
+		ncomp, undecided := 0, 0
+		for k := 0; k < n && bad == ""; k++ {
+			if seen[k] || e.isFact[k] || len(assumeSupp[k]) == 0 {
+				continue
+			}
+			seen[k] = true
+			comp := append([]int{k}, mark(assumeSupp[k])...)
+			var cs []*Term
+			for _, j := range comp {
+				cs = append(cs, e.assumptions[j])
+			}
+			ncomp++
+			v, _, _ := query(0, rawAndAll(cs), true, true)
+			if v == "unsat" {
+				bad = fmt.Sprintf("side assumptions (component of %d, first: assumption #%d) are %s", len(comp), k, v)
+			} else if v != "sat" {
+				// guarded assumptions deep inside a harness embed the whole path
+				// condition; an undecided component is recorded, not failed:
+				// this pass is a safety net against contradictory assumptions
+				undecided++
+			}
+		}
+		if os.Getenv("GOSMT_VERBOSE") != "" {
+			fmt.Fprintf(os.Stderr, "[vacuity] %d side components checked, %d undecided %s\n", ncomp, undecided, bad)
+		}
+		if undecided > 0 {
+			res.Notes = append(res.Notes, fmt.Sprintf("vacuity: %d of %d side-assumption components were not decided within the cap (none was unsatisfiable)", undecided, ncomp))
+		}
+		if bad != "" {
+			for i, ob := range e.obligations {
+				if ob.Kind == "reach" && results[i].Verdict == "sat" {
+					if strings.Contains(bad, "unsat") {
+						results[i].Verdict = "unsat"
+					} else {
+						results[i].Verdict = "unknown (" + bad + ")"
+					}
+				}
+			}
+		}
+	}
 	status := "ok"
 	for i, ob := range e.obligations {
 		r := &results[i]
